@@ -222,7 +222,7 @@ class tensorflow_backend:
             # Use a tensor attribute that isn't meaningless when eager execution is enabled
             tensor.device
         except AttributeError:
-            tensor = tf.convert_to_tensor(tensor_in)
+            tensor = tf.convert_to_tensor(tensor_in, dtype_hint=dtype)
         if tensor.dtype is not dtype:
             tensor = tf.cast(tensor, dtype)
         return tensor
